@@ -1354,6 +1354,10 @@ void SPxSolverBase<R>::setType(Type tp)
 
          SPxBasisBase<R>::theLP = this;
 
+         // the matrix copied from base consists of pointers to base's column / unit vectors
+         if(this->matrixIsSetup)
+            SPxBasisBase<R>::loadMatrixVecs();
+
          assert(!freePricer || thepricer != nullptr);
          assert(!freeRatioTester || theratiotester != nullptr);
          assert(!freeStarter || thestarter != nullptr);
